@@ -115,7 +115,9 @@ def audit_panics(ctx, rule, scope, discharge, floor=None):
     ctx.extra.setdefault("panic_sites_in_scope", {})[rule] = len(sites)
     ctx.extra.setdefault("panic_scope_functions", {})[rule] = len(scope)
     if floor is not None:
-        ctx.floor(rule, len(sites), floor, "may-panic sites in scope (positive control)")
+        # arithmetic-overflow asserts exist only with overflow checks on (dev profile): not counted for the positive control
+        stable = [s for s in sites if not (s["kind"] == "assert" and s["what"].startswith("Overflow:") and s["what"] not in ("Overflow:Rem", "Overflow:Div"))]
+        ctx.floor(rule, len(stable), floor, "may-panic sites in scope, profile-independent ones (positive control)")
     return sites
 
 
